@@ -465,7 +465,7 @@ func genClusterTimely(t *testing.T, r *rand.Rand, h *History) {
 	}
 	crashAt := map[int64]int{} // process -> number of own events after which it stops
 	for i := int64(0); i < nFaulty; i++ {
-		crashAt[int64(perm[i])] = r.Intn(3 + r.Intn(int(4*n))) // 0 = never starts
+		crashAt[int64(perm[i])] = r.Intn(1 + r.Intn(3+r.Intn(int(4*n)))) // 0 = never starts; small = early
 	}
 	sameVal := r.Intn(3) == 0
 	inBubble(t, h, func(c *cluster) {
@@ -919,7 +919,7 @@ func genAdversarial(t *testing.T, r *rand.Rand, h *History, tmpl int) {
 			if r.Intn(2) == 0 {
 				a.send(M{T: 3, Src: ss[0], Rnd: rd, Val: v + 10}) // real vote first, then spam evicts nothing relevant
 			}
-			for k := 0; k < h.Fifo+2+r.Intn(4); k++ {
+			for k := 0; k < h.Fifo-1+r.Intn(4); k++ { // around the eviction boundary
 				a.send(M{T: 3, Src: ss[1%len(ss)], Rnd: rd, Val: v + 1 + int64(k%2)})
 			}
 			a.send(M{T: 3, Src: ss[0], Rnd: rd, Val: v})
